@@ -21,6 +21,14 @@ def reg(prop, level, harnesses, functions, note="", extra_assumptions=()):
 reg(
     "C01",
     "proof",
-    ["contracts.moment_int:MomentIntermediate"],
+    ["contracts.moment_int:MomentIntermediate", "contracts.overlap:Cleanup", "contracts.overlap:ComposeMoment",
+     "contracts.overlap:NormPrim", "contracts.overlap:OverlapBlock", "contracts.overlap:AssignNormCont",
+     "contracts.overlap:NormContInline"],
     ["gbasis.integrals._moment_int._compute_multipole_moment_integrals_intermediate"],
 )
+
+ASM = ["contracts.assembly:OneIndex", "contracts.assembly:TwoSymm", "contracts.assembly:TwoAsymm", "contracts.assembly:FourSymm"]
+reg("C09", "proof", ASM, ["gbasis.base_one.BaseOneIndex.construct_array_{cartesian,spherical,mix,lincomb}",
+    "gbasis.base_two_symm.BaseTwoIndexSymmetric.construct_array_{cartesian,spherical,mix,lincomb}",
+    "gbasis.base_two_asymm.BaseTwoIndexAsymmetric.construct_array_{cartesian,spherical,mix,lincomb}",
+    "gbasis.base_four_symm.BaseFourIndexSymmetric.construct_array_{cartesian,spherical,mix,lincomb}"])
